@@ -278,3 +278,72 @@ def corpus_words(culture):
     for q, _ in corpus_inputs(culture):
         w.update(q.split())
     return sorted(w)
+
+
+# ----------------------------------------------------------------------------------------------
+# boundary monitor: every concrete Model.parse, wrapped at class level
+
+_BOUNDARY_CBS = []
+_BOUNDARY_ON = [False]
+SEQ = [0]
+_SEQ_LOCK = threading.Lock()
+
+
+def _all_model_classes():
+    import recognizers_number.number.models as a
+    import recognizers_number_with_unit.number_with_unit.models as b
+    import recognizers_sequence.sequence.models as c
+    import recognizers_choice.choice.models as d
+    import recognizers_date_time.date_time.models as e
+    from recognizers_text.model import Model
+    seen, stack, out = set(), [Model], []
+    while stack:
+        k = stack.pop()
+        for s in k.__subclasses__():
+            if s not in seen:
+                seen.add(s)
+                stack.append(s)
+                out.append(s)
+    return out
+
+
+def install_boundary(cb):
+    """cb(model, query, reference, result|None, exception|None, seq) is called after every Model.parse of any workload.
+    Call events are numbered before invoking and reported after the return (client boundary)."""
+    _BOUNDARY_CBS.append(cb)
+    if _BOUNDARY_ON[0]:
+        return
+    _BOUNDARY_ON[0] = True
+    for cls in _all_model_classes():
+        if 'parse' not in cls.__dict__:
+            continue
+        orig = cls.__dict__['parse']
+        if getattr(orig, '_rt_boundary', False):
+            continue
+
+        def make(orig):
+            def parse(self, query, *a, **k):
+                with _SEQ_LOCK:
+                    SEQ[0] += 1
+                    seq = SEQ[0]
+                ref = a[0] if a else k.get('reference')
+                try:
+                    res = orig(self, query, *a, **k)
+                except Exception as e:
+                    for cb in _BOUNDARY_CBS:
+                        cb(self, query, ref, None, e, seq)
+                    raise
+                for cb in _BOUNDARY_CBS:
+                    cb(self, query, ref, res, None, seq)
+                return res
+            parse._rt_boundary = True
+            return parse
+        setattr(cls, 'parse', make(orig))
+
+
+def model_tag(m):
+    """(model class name, culture or '?') for a model object built through lib.model()"""
+    for (rn, mt, cu), mm in _MODELS.items():
+        if mm is m:
+            return mt, cu
+    return type(m).__name__, '?'
